@@ -65,20 +65,20 @@ def o_pubcomp(ad, a, b, c):
     return [("rx", ad, "PUBCOMP", [0, 0, 0, 1, 2, 3, 4, 5][a % 8], b, c)]
 
 
-SELS2 = [0, 0, 0, 1, 2, 3, 4, 6]        # with "the id of an outstanding request of another kind"
+SELS2 = [0, 0, 0, 1, 2, 3, 4, 6, 7, 0, 1, 7]   # with "id of another kind's request" and "id outstanding on the other address"
 
 
 def o_suback(ad, a, b, c):
-    return [("rx", ad, "SUBACK", SELS2[a % 8], b, c if c < 128 else 0)]
+    return [("rx", ad, "SUBACK", SELS2[a % 12], b, c if c < 128 else 0)]
 
 
 def o_unsuback(ad, a, b, c):
-    return [("rx", ad, "UNSUBACK", SELS2[a % 8], b, c)]
+    return [("rx", ad, "UNSUBACK", SELS2[a % 12], b, c)]
 
 
 def o_ack_any(ad, a, b, c):
     k = ["PUBACK", "PUBREC", "PUBCOMP", "SUBACK", "UNSUBACK"][c % 5]
-    return [("rx", ad, k, SELS2[a % 8], b, 0)]
+    return [("rx", ad, k, SELS2[a % 12], b, 0)]
 
 
 def o_ack_good(ad, a, b, c):
@@ -254,6 +254,17 @@ def o_quit_inside_segment(ad, a, b, c):
     rest = [("rx", ad, "PUBLISH", 1 + (c & 1), (c >> 1) & 0x0f, 1), ("rx", ad, "PUBREL", 0, 0, 0), ("rx", ad, "PUBREC", 0, 0, 0),
             ("rx", ad, "PINGRESP")][(c >> 5) % 4]
     return [("arm", ad, trig, "disconnect", 0), ("coalesce", ad, 2), first, rest]
+
+
+def o_inpub_cut(ad, a, b, c):
+    """a large inbound PUBLISH whose first TCP segment ends inside the fixed header / length field"""
+    size_bits = [3, 4, 5, 3][b % 4] << 4        # 200 / 20000 / 100000 byte payloads: 2- and 3-byte remaining length
+    return [("rx", ad, "PUBLISH", a % 3, size_bits | (b & 0x0f), c % 3, [1 + (c >> 2) % 4])]
+
+
+def o_partial(ad, a, b, c):
+    """the beginning of a broker packet arrives and the rest does not (yet): a few bytes of a PUBLISH"""
+    return [("raw", ad, ["30", "3014", "301400", "30140003", "3014000361", "32c801", "9003"][a % 7])]
 
 
 class Table(object):
